@@ -143,3 +143,96 @@ def _build_frames(inputs, chain):
 _replay.GENERATORS['frames_roundtrip'] = _gen_frames
 _replay.BUILD_HOOKS = getattr(_replay, 'BUILD_HOOKS', {})
 _replay.BUILD_HOOKS['frames'] = _build_frames
+
+
+# ---- exact frames of the messages that carry protocol objects (over the C01 serialiser contracts) ----------------
+from contracts.c01 import tx_ser, block_ser, header_ser
+from bitcoin.messages import msg_tx, msg_block, msg_headers
+from bitcoin.core import CTransaction, CBlock, CBlockHeader
+register(msg_tx, tx=Obj(CTransaction), protover=Int)
+register(msg_block, block=Obj(CBlock), protover=Int)
+register(msg_headers, headers=TupleOf(Obj(CBlockHeader)), protover=Int)
+
+
+@contract('bitcoin.messages:MsgSerializable.to_bytes', name='tx_to_bytes', prop=P)
+def tx_to_bytes(self: Obj(msg_tx)):
+    """a tx message is the frame around the full (witness) serialisation of its transaction"""
+    option(chains=True)
+    requires(valid_tx(self.tx) and len(enc_tx(self.tx, True)) < 2**32)
+    ensures(result == frame(chain_magic(CHAIN), b'tx', enc_tx(self.tx, True)))
+
+
+@contract('bitcoin.messages:MsgSerializable.to_bytes', name='block_to_bytes', prop=P)
+def block_to_bytes(self: Obj(msg_block)):
+    option(chains=True)
+    requires(valid_block(self.block) and len(enc_block(self.block, True)) < 2**32)
+    ensures(result == frame(chain_magic(CHAIN), b'block', enc_block(self.block, True)))
+
+
+@contract('bitcoin.messages:MsgSerializable.to_bytes', name='headers_to_bytes', prop=P)
+def headers_to_bytes(self: Obj(msg_headers)):
+    """a headers message: count, then per entry the 80-byte header and a zero transaction count, any number of entries"""
+    option(chains=True, auto_unfold=False)
+    requires(len(self.headers) < 2**32 and forall(range(0, len(self.headers)), lambda j: valid_header(self.headers[j])))
+    requires(len(enc_header_entries(self.headers)) < 2**31)
+    invariant_in('bitcoin.messages:msg_headers.msg_ser', 0, at_end(f) and sdata(f) == compact_size(len(self.headers))
+                 + enc_header_entries(self.headers[:_k]))
+    hint_in('bitcoin.messages:msg_headers.msg_ser', 0, 'entry', unfold(enc_header_entries(self.headers[:0])))
+    hint_in('bitcoin.messages:msg_headers.msg_ser', 0, 'body', unfold(enc_header_entries(self.headers[:_k + 1])))
+    ensures(result == frame(chain_magic(CHAIN), b'headers', compact_size(len(self.headers)) + enc_header_entries(self.headers)))
+
+
+from bitcoin.net import CInv, CBlockLocator
+from bitcoin.messages import msg_inv, msg_getdata, msg_notfound, msg_getblocks, msg_getheaders
+from bitcoin.core.serialize import VectorSerializer, uint256VectorSerializer
+register(CInv, type=Int, hash=Bytes)
+register(msg_inv, inv=TupleOf(Obj(CInv)), protover=Int)
+register(msg_getdata, inv=TupleOf(Obj(CInv)), protover=Int)
+register(msg_notfound, inv=TupleOf(Obj(CInv)), protover=Int)
+register(CBlockLocator, nVersion=Int, vHave=TupleOf(Bytes))
+register(msg_getblocks, locator=Obj(CBlockLocator), hashstop=Bytes, protover=Int)
+register(msg_getheaders, locator=Obj(CBlockLocator), hashstop=Bytes, protover=Int)
+
+
+@contract('bitcoin.core.serialize:VectorSerializer.stream_serialize', name='vec_ser_inv', prop=P)
+def vec_ser_inv(cls: Const(VectorSerializer), inner_cls: Const(CInv), objs: TupleOf(Obj(CInv)), f: Stream):
+    requires(len(objs) < 2**64 and forall(range(0, len(objs)), lambda j: valid_inv(objs[j])))
+    requires(at_end(f))
+    option(callable=True, modifies=['f'], auto_unfold=False)
+    invariant(0, at_end(f) and sdata(f) == old(sdata(f)) + compact_size(len(objs)) + enc_invs(objs[:_k]))
+    hint(0, 'entry', unfold(enc_invs(objs[:0])))
+    hint(0, 'body', unfold(enc_invs(objs[:_k + 1])))
+    ensures(sdata(f) == old(sdata(f)) + compact_size(len(objs)) + enc_invs(objs) and at_end(f))
+
+
+@contract('bitcoin.messages:MsgSerializable.to_bytes', name='inv_to_bytes', prop=P)
+def inv_to_bytes(self: Obj(OneOf(msg_inv, msg_getdata, msg_notfound))):
+    """inv / getdata / notfound: count and (type, hash) entries, any number"""
+    option(chains=True, auto_unfold=False)
+    requires(len(self.inv) < 2**32 and forall(range(0, len(self.inv)), lambda j: valid_inv(self.inv[j])))
+    requires(len(enc_invs(self.inv)) < 2**31)
+    ensures(result == frame(chain_magic(CHAIN), ite(typeis(self, msg_inv), b'inv', ite(typeis(self, msg_getdata), b'getdata', b'notfound')),
+                            compact_size(len(self.inv)) + enc_invs(self.inv)))
+
+
+@contract('bitcoin.core.serialize:uint256VectorSerializer.stream_serialize', name='vec_ser_hashes', prop=P)
+def vec_ser_hashes(cls: Const(uint256VectorSerializer), uints: TupleOf(Bytes), f: Stream):
+    requires(len(uints) < 2**64 and forall(range(0, len(uints)), lambda j: len(uints[j]) == 32))
+    requires(at_end(f))
+    option(callable=True, modifies=['f'], auto_unfold=False)
+    invariant(0, at_end(f) and sdata(f) == old(sdata(f)) + compact_size(len(uints)) + enc_hashes(uints[:_k]))
+    hint(0, 'entry', unfold(enc_hashes(uints[:0])))
+    hint(0, 'body', unfold(enc_hashes(uints[:_k + 1])))
+    ensures(sdata(f) == old(sdata(f)) + compact_size(len(uints)) + enc_hashes(uints) and at_end(f))
+
+
+@contract('bitcoin.messages:MsgSerializable.to_bytes', name='getblocks_to_bytes', prop=P)
+def getblocks_to_bytes(self: Obj(OneOf(msg_getblocks, msg_getheaders))):
+    """getblocks / getheaders: locator version, count, block hashes, stop hash"""
+    option(chains=True, auto_unfold=False)
+    requires(-2**31 <= self.locator.nVersion and self.locator.nVersion < 2**31 and len(self.hashstop) == 32)
+    requires(len(self.locator.vHave) < 2**24 and forall(range(0, len(self.locator.vHave)), lambda j: len(self.locator.vHave[j]) == 32))
+    requires(len(enc_hashes(self.locator.vHave)) < 2**30)
+    ensures(result == frame(chain_magic(CHAIN), ite(typeis(self, msg_getblocks), b'getblocks', b'getheaders'),
+                            le_bytes(self.locator.nVersion % 2**32, 4) + compact_size(len(self.locator.vHave))
+                            + enc_hashes(self.locator.vHave) + self.hashstop))
